@@ -16,6 +16,11 @@ EXPECT_OK = {"pack-3": "pack", "pack-4100": "pack", "pack-empty": "pack", "arc-p
              "AssetBinary_Test.bin": "asset", "TextArchive_Test.bin": "text_uni_le", "TextArchive_Legacy_Test.bin": "text_sjis_be"}
 
 
+for _k, _v in (("text-uni-le", "text_uni_le"), ("text-uni-be", "text_uni_be"), ("text-sjis-le", "text_sjis_le"), ("text-sjis-be", "text_sjis_be")):
+    for _n in (0, 1, 3, 4, 7):
+        EXPECT_OK["%s-only-title%d" % (_k, _n)] = _v
+
+
 def run(ctx):
     ctx.rule = ("Base images (conforming files of every family written by mila's serializers + the repository's samples) x single-field "
                 "boundary mutations enumerated by TLC for every header/table field (0, 1, exact+-1, len, 2^16, 2^30.., 2^31, 2^32-1 ...) x all "
